@@ -98,6 +98,7 @@ Lem_Nav == \A n \in Nodes:
 Lem_Orders == \A s \in Nodes:
   /\ IsPerm(PreOrder(Ch, s), Sub(s)) /\ IsPerm(PostOrder(Ch, s), Sub(s)) /\ IsPerm(LevelOrder(Par, Ch, s), Sub(s))
   /\ Flat(Groups(Par, Ch, s)) = LevelOrder(Par, Ch, s)
+  /\ Groups(Par, Ch, s) = GroupsDef(Par, Ch, s)
   /\ Flat([d \in 1..Len(ZigZag(Par, Ch, s)) |-> IF d % 2 = 0 THEN Rev(ZigZag(Par, Ch, s)[d]) ELSE ZigZag(Par, Ch, s)[d]]) = LevelOrder(Par, Ch, s)
   \* post-order is the mirror image of the pre-order of the mirrored tree
   /\ PostOrder(Ch, s) = Rev(PreOrder(Mirror, s))
